@@ -7,6 +7,9 @@ import (
 	"flag"
 	"fmt"
 	"os"
+	"os/exec"
+	"path/filepath"
+	"runtime"
 	"strconv"
 	"strings"
 
@@ -31,17 +34,19 @@ func main() {
 		root    = flag.String("root", "/verif", "")
 		exe     = flag.String("exe", "", "plain child binary")
 		raceExe = flag.String("race-exe", "", "race child binary")
+		exe386  = flag.String("exe386", "", "GOARCH=386 child binary")
 		replay  = flag.String("replay", "", "replay file")
 		list    = flag.Bool("list", false, "list properties and whether they need the race build")
 	)
 	flag.Parse()
 	if *list {
 		for _, p := range props.All() {
-			race := false
+			race, a386 := false, false
 			for _, s := range p.Streams {
 				race = race || s.Race
+				a386 = a386 || s.Arch386
 			}
-			fmt.Printf("%s race=%v streams=%d\n", p.ID, race, len(p.Streams))
+			fmt.Printf("%s race=%v streams=%d arch386=%v\n", p.ID, race, len(p.Streams), a386)
 		}
 		return
 	}
@@ -81,6 +86,26 @@ func main() {
 		if v.Tier == "thorough" {
 			t = vf.Thorough
 		}
+		for _, st := range p.Streams {
+			if st.Name == v.Stream && st.Arch386 && runtime.GOARCH != "386" {
+				// the witness belongs to a stream that runs in the GOARCH=386 build
+				self, _ := os.Executable()
+				alt := filepath.Join(filepath.Dir(self), "vcheck-386")
+				if _, err := os.Stat(alt); err != nil {
+					fmt.Println("replay needs the GOARCH=386 build next to this binary:", alt)
+					os.Exit(2)
+				}
+				cmd := exec.Command(alt, "-replay", *replay)
+				cmd.Stdout, cmd.Stderr = os.Stdout, os.Stderr
+				if err := cmd.Run(); err != nil {
+					if ee, ok := err.(*exec.ExitError); ok {
+						os.Exit(ee.ExitCode())
+					}
+					os.Exit(2)
+				}
+				os.Exit(0)
+			}
+		}
 		fmt.Printf("replaying %s stream=%s index=%d seed=%d tier=%s\nrecorded: %s\n", v.Key, v.Stream, v.Index, v.Seed, v.Tier, v.Msg)
 		os.Exit(vf.RunChild(p, vf.ChildArgs{Prop: p.ID, Tier: t, Seed: v.Seed, Stream: v.Stream, Only: v.Index, Workers: 1, Replay: true}))
 	}
@@ -100,5 +125,5 @@ func main() {
 		os.Exit(vf.RunChild(p, vf.ChildArgs{Prop: p.ID, Tier: tier, Seed: *seed, Stream: *stream, From: *from, To: *to,
 			Only: *only, Workers: *workers, Work: *work, Shard: *shard, Skip: sk}))
 	}
-	os.Exit(vf.Supervise(vf.SupArgs{Prop: p, Tier: tier, Seed: *seed, Root: *root, Exe: *exe, RaceExe: *raceExe, Streams: *stream}))
+	os.Exit(vf.Supervise(vf.SupArgs{Prop: p, Tier: tier, Seed: *seed, Root: *root, Exe: *exe, RaceExe: *raceExe, Exe386: *exe386, Streams: *stream}))
 }
